@@ -128,10 +128,20 @@ def _guard_names(prog: Program) -> None:
     need_locals(prog.func("node_visitor", "BaseNodeVisitor.show_error"), "lines", "lineno", "ignore_comment", "error_code")
 
 
+def _line_tables(fn: ast.FunctionDef) -> Set[str]:
+    """Locals that hold one entry per source line: assigned from self._lines() or self._comments()."""
+    out = set()
+    for n in walk_no_nested(fn):
+        if isinstance(n, ast.Assign) and len(n.targets) == 1 and isinstance(n.targets[0], ast.Name) and isinstance(n.value, ast.Call) and norm(n.value.func) in ("self._lines", "self._comments"):
+            out.add(n.targets[0].id)
+    return out or {"lines"}
+
+
 def _ignore_return_ifs(fn: ast.FunctionDef) -> List[Tuple[ast.If, str, Optional[str]]]:
     """`if <test>: self.used_ignores.add(IDX); return` inside show_error ->
     (if, IDX text, name of the local that holds the matched line)."""
     out = []
+    tables = _line_tables(fn)
     for n in walk_no_nested(fn):
         if not isinstance(n, ast.If) or not n.body or not isinstance(n.body[-1], ast.Return):
             continue
@@ -152,7 +162,7 @@ def _ignore_return_ifs(fn: ast.FunctionDef) -> List[Tuple[ast.If, str, Optional[
                             frontier.add(x.id)
         for nm in sorted(frontier):
             for a in local_assignments(fn, nm):
-                if any(isinstance(sx, ast.Subscript) and norm(sx.value) == "lines" for sx in ast.walk(a)):
+                if any(isinstance(sx, ast.Subscript) and norm(sx.value) in tables for sx in ast.walk(a)):
                     line_var = line_var or nm
         out.append((n, idx, line_var))
     return out
@@ -174,7 +184,7 @@ def r11_2(prog: Program, chk: Check) -> None:
         if lv is not None:
             for a in local_assignments(fn, lv):
                 for sx in ast.walk(a):
-                    if isinstance(sx, ast.Subscript) and norm(sx.value) == "lines":
+                    if isinstance(sx, ast.Subscript) and norm(sx.value) in _line_tables(fn):
                         idx_read = norm(sx.slice)
         ok = len(n.body) == 2 and idx_read is not None and idx_used == idx_read
         chk.ob(
